@@ -440,6 +440,6 @@ S_CT = st.fixed_dictionaries({
 
 def tests(tier):
     return [
-        Test("safe_fast", S_DIFF, run_diff, {"quick": 40000, "thorough": 300000}, CFGA),
+        Test("safe_fast", S_DIFF, run_diff, {"quick": 40000, "thorough": 300000}, CFGA + (("w32",) if CFGA == ("asan",) else ())),
         Test("memcheck", S_CT, run_ct, {"quick": 4800, "thorough": 32000}, ("rel",)),
     ]
